@@ -578,6 +578,7 @@ def check_C19(ctx):
         recv.rule_zero_read(ctx, cfg, F)
         recv.rule_timeout_arm(ctx, cfg, F)
         recv.rule_nb_pair(ctx, cfg, F)
+        recv.rule_nb_mode(ctx, cfg, F)
     for cfg, F in ctx.configs(["K3"]):
         recv.rule_inproc_classes(ctx, cfg, F)
     # receiver sets: each backend hands out every pending event of a ready member (a bounded or early-ending drain on one backend is a divergence)
